@@ -146,6 +146,29 @@ def body_deftype_change(h):
     return [_geti(impl, b'E%')]
 
 
+def body_string_param(h):
+    """a string parameter shadows a global string while a collection runs inside the function body"""
+    impl = _setup(h, [b'10 DEF FNS$(X$)=X$+MID$("q",1+0*FRE(""))',
+                      b'20 X$=S$+"": R$=FNS$(T$+""): E%=1'], [b'E%'])
+    impl.execute(b'X$="":R$="":S$="":T$=""')
+    sv, tv = h.bytes('s', 3), h.bytes('t', 2)
+    impl.set_variable(b'S$', sv)
+    impl.set_variable(b'T$', tv)
+    res = h.call(impl.execute, b'GOTO 10')
+    h.require('no-host-exception', res[0] == 'ok', res)
+    h.require('completed', s_and(_geti(impl, b'E%') == 1, impl.interpreter.error_num == 0))
+    rx, rr = h.call(impl.get_variable, b'X$'), h.call(impl.get_variable, b'R$')
+    h.require('variables-readable', rx[0] == 'ok' and rr[0] == 'ok', [rx[0], rr[0]])
+    if rx[0] != 'ok' or rr[0] != 'ok':
+        return [rx[0], rr[0]]
+    x, r = rx[1], rr[1]
+    h.require('global-string-restored', s_and(len(x) == 3, bytes_eq(x, list(sv))), x)
+    h.require('result-uses-the-argument', s_and(len(r) == 3, bytes_eq(r, list(tv) + [113])), r)
+    h.require('other-strings-kept', s_and(bytes_eq(impl.get_variable(b'S$'), list(sv)),
+                                           bytes_eq(impl.get_variable(b'T$'), list(tv))))
+    return [list(x), list(r)]
+
+
 def cases(tier):
     return [Case('sum-two-params-and-global', body_sum, timeout_s=3000, max_paths=400000),
             Case('parameter-shadows-global', body_shadow, timeout_s=3000),
@@ -155,5 +178,6 @@ def cases(tier):
             Case('duplicate-parameter', body_duplicate_param),
             Case('result-conversion-overflow', body_result_conversion, timeout_s=3000),
             Case('deftype-change-between-def-and-call', body_deftype_change),
+            Case('string-parameter-with-collection', body_string_param),
             Case('self-recursion', body_recursion, params={'mutual': False}),
             Case('mutual-recursion', body_recursion, params={'mutual': True})]
